@@ -20,6 +20,8 @@ var msgPieces = []string{
 	"id: x", "data: y", "event: z", "retry: 5", "id", "data", "data:", ": c", "id:7",
 	"\xEF\xBB\xBF", "\xEF\xBB", "\x00", "é", "日本", "\xff", "\xc3", "\xe6\x97",
 	"a", "b", "hello", "world", "x y", "0", "42", "\t", "",
+	// bytes one bit away from a line break (VT / FF), right before one: a word-at-a-time search must not take them for it
+	"\x0b\n", "\x0c\r", "pppa\x0c\r\nb", "\x0b", "abc\x0b\nrest of the line",
 }
 
 var msgPlain = []string{"a", "b", "hello", "world", "x y", "0", "42", "é", "日本", "some text", "{\"k\": 1}"}
